@@ -192,6 +192,36 @@ def check(run):
         p3, u3 = mc.gen_keys()
         if c.PublicKey.to_bytes(u3) != crypto.ed25519_ref_public(c.PrivateKey.to_bytes(p3)):
             viol("gen_keys returns a public key that does not belong to the private key")
+    # sequences around a FAILED key generation: the failure (second file cannot be created) is held on to, as an error list or a test
+    # harness would, a later generation under the same name succeeds, the old failure is released - and the files still hold the keys the
+    # successful call returned
+    import gc
+    for i in range(3 if quick else 12):
+        name = os.path.join(wd, "afterfail%d" % i)
+        held = []
+        for blocker in ((".pub",), (".pri",), (".pub", ".pub"))[i % 3]:
+            os.mkdir(name + blocker)                       # a directory where the key file should go: open() fails
+            try:
+                mc.gen_and_write_keys(name)
+                viol("gen_and_write_keys succeeded although a key file could not be written")
+            except Exception as e:  # noqa: BLE001
+                held.append(e)                             # keep the exception (and whatever its traceback references) alive
+            os.rmdir(name + blocker)
+        try:
+            priv, pub = mc.gen_and_write_keys(name)
+        except Exception as e:  # noqa: BLE001
+            viol(f"gen_and_write_keys fails after an earlier failed attempt under the same name ({type(e).__name__})")
+            continue
+        first = c.keyfiles_to_bytes(name)
+        held.clear()       # (`except ... as e` already unbound e)
+        gc.collect()
+        second = c.keyfiles_to_bytes(name)
+        run.evaluations += 4
+        want = (c.PrivateKey.to_bytes(priv), c.PublicKey.to_bytes(pub))
+        if first != want or second != want:
+            viol("key files do not hold the keys the successful gen_and_write_keys returned, after an earlier failed attempt under the same name "
+                 + ("(changed when the old failure was released)" if first == want else ""))
+        run._distinct.add("afterfail%d" % i)
     # malformed encodings
     good = seeds[3]
     bad_bytes = [good[:31], good + b"\x00", b"", good.hex(), None, 5, [good], bytearray(good)[:31]]
